@@ -1,18 +1,557 @@
-(* C06 -- proofs about the release paths (model in C06_Model.v) *)
+(* C06 -- proofs about the release paths (model in C06_Model.v): the reported category is exactly the property's case analysis *)
 From Coq Require Import NArith List Bool Arith Lia.
 From CppUVerif Require Import gen.Gen_Common gen.Gen_C06 lib.Str C04_Model C04_Lists C04_Table C06_Model.
 Import ListNotations.
 Local Open Scope N_scope.
+(* the constants come from the source: nothing below may depend on their values *)
+Arguments pat : simpl never.
+Arguments G : simpl never.
+Arguments pattern : simpl never.
+Arguments poison : simpl never.
 
-(* releasing NULL: nothing reported, nothing returned to the allocator, state unchanged -- through every entry point *)
+(* ------------------------------------------------------------------ memory *)
+Lemma mread_mwrite m b bs a :
+  mread (mwrite m b bs) a = if in_seg b bs a then nth (N.to_nat (a - b)) bs 0 else mread m a.
+Proof. reflexivity. Qed.
+Lemma in_seg_true b bs a : in_seg b bs a = true <-> b <= a /\ a < b + N.of_nat (length bs).
+Proof. unfold in_seg. rewrite andb_true_iff, N.leb_le, N.ltb_lt. tauto. Qed.
+Lemma in_seg_false b bs a : in_seg b bs a = false <-> a < b \/ b + N.of_nat (length bs) <= a.
+Proof. unfold in_seg. rewrite andb_false_iff, N.leb_gt, N.ltb_ge. tauto. Qed.
+Lemma mread_outside m b bs a : a < b \/ b + N.of_nat (length bs) <= a -> mread (mwrite m b bs) a = mread m a.
+Proof. intros H. rewrite mread_mwrite. apply in_seg_false in H. rewrite H. reflexivity. Qed.
+Lemma mread_inside m b bs i : (i < length bs)%nat -> mread (mwrite m b bs) (b + N.of_nat i) = nth i bs 0.
+Proof.
+  intros H. rewrite mread_mwrite.
+  assert (E : in_seg b bs (b + N.of_nat i) = true) by (apply in_seg_true; lia).
+  rewrite E. replace (b + N.of_nat i - b) with (N.of_nat i) by lia. rewrite Nat2N.id. reflexivity.
+Qed.
+Lemma mrange_length m a n : length (mrange m a n) = n.
+Proof. unfold mrange. rewrite map_length, seq_length. reflexivity. Qed.
+Lemma mrange_ext m m' a n :
+  (forall i, (i < n)%nat -> mread m (a + N.of_nat i) = mread m' (a + N.of_nat i)) -> mrange m a n = mrange m' a n.
+Proof. intros H. unfold mrange. apply map_ext_in. intros i Hi. apply in_seq in Hi. apply H. lia. Qed.
+
+Lemma nth_map_seq {A} (f : nat -> A) d : forall n s i, (i < n)%nat -> nth i (map f (seq s n)) d = f (s + i)%nat.
+Proof.
+  induction n as [|n IH]; intros s i H; [lia|]. cbn. destruct i as [|i].
+  - rewrite Nat.add_0_r. reflexivity.
+  - rewrite IH by lia. f_equal. lia.
+Qed.
+Lemma pattern_length : length pattern = G.
+Proof. unfold pattern. rewrite map_length, seq_length. reflexivity. Qed.
+Lemma pattern_nth i : (i < G)%nat -> nth i pattern 0 = pat i.
+Proof. intros H. unfold pattern. rewrite nth_map_seq by assumption. reflexivity. Qed.
+Lemma nth_repeat {A} (x d : A) : forall n i, (i < n)%nat -> nth i (repeat x n) d = x.
+Proof. induction n as [|n IH]; intros [|i] H; cbn; try lia; auto. apply IH. lia. Qed.
+
+(* the guard of a freshly stored block is intact; the poison fill shows at every user byte *)
+Lemma mrange_written m a bs : mrange (mwrite m a bs) a (length bs) = bs.
+Proof.
+  unfold mrange. apply nth_ext with (d := 0) (d' := 0); [rewrite map_length, seq_length; reflexivity|].
+  intros i Hi. rewrite map_length, seq_length in Hi.
+  rewrite nth_map_seq by assumption. cbn. apply mread_inside. assumption.
+Qed.
+
+(* ------------------------------------------------------------------ the guard check *)
+Definition guard_changed (m : memory) (n : node) : Prop :=
+  exists i, (i < G)%nat /\ mread m (n_addr n + n_size n + N.of_nat i) <> pat i.
+
+Lemma valid_guard_true m p : valid_guard m p = true <-> forall i, (i < G)%nat -> mread m (p + N.of_nat i) = pat i.
+Proof.
+  unfold valid_guard. rewrite forallb_forall. split; intros H i Hi.
+  - apply N.eqb_eq. apply H. apply in_seq. lia.
+  - apply N.eqb_eq. apply H. apply in_seq in Hi. lia.
+Qed.
+Lemma valid_guard_false m n : valid_guard m (n_addr n + n_size n) = false <-> guard_changed m n.
+Proof.
+  unfold guard_changed, valid_guard. split.
+  - intros H. assert (E : existsb (fun i => negb (mread m (n_addr n + n_size n + N.of_nat i) =? pat i)) (seq 0 G) = true).
+    { clear -H. induction (seq 0 G) as [|x l IH]; cbn in H |- *; [discriminate|].
+      destruct (mread m (n_addr n + n_size n + N.of_nat x) =? pat x); cbn in H |- *; [apply IH; exact H | reflexivity]. }
+    apply existsb_exists in E. destruct E as (i & Hi & Hn). apply in_seq in Hi. exists i. split; [lia|].
+    apply negb_true_iff, N.eqb_neq in Hn. assumption.
+  - intros (i & Hi & Hn). destruct (forallb _ _) eqn:E; [|reflexivity].
+    rewrite forallb_forall in E. specialize (E i). rewrite in_seq in E. specialize (E ltac:(lia)). apply N.eqb_eq in E. contradiction.
+Qed.
+Lemma guard_changed_dec m n : guard_changed m n \/ ~ guard_changed m n.
+Proof. rewrite <- valid_guard_false. destruct (valid_guard m (n_addr n + n_size n)); [right|left]; congruence. Qed.
+
+(* the guard check is the comparison of the G bytes behind the user bytes with the pattern *)
+Lemma bytes_eqb_maps (f g : nat -> N) : forall l, bytes_eqb (map f l) (map g l) = forallb (fun i => f i =? g i) l.
+Proof. induction l as [|x l IH]; cbn; [reflexivity|]. rewrite IH. reflexivity. Qed.
+Lemma valid_guard_range m p : valid_guard m p = bytes_eqb (mrange m p G) pattern.
+Proof. unfold valid_guard, mrange, pattern. rewrite bytes_eqb_maps. reflexivity. Qed.
+
+(* ------------------------------------------------------------------ families *)
+Definition fam_of (ds : list adesc) (al : nat) : list N := name_of ds (actual_of ds al).
+
+Lemma equal_type_spec ds f a : equal_type ds f a = bytes_eqb (name_of ds a) (name_of ds f).
+Proof.
+  unfold equal_type. destruct (str_cmp (name_of ds f) (name_of ds a)) eqn:E.
+  - apply str_cmp_eq in E. rewrite E. symmetry. apply bytes_eqb_refl.
+  - symmetry. apply bytes_eqb_neq. intro H. rewrite H in E. rewrite (proj2 (str_cmp_eq _ _) eq_refl) in E. discriminate.
+  - symmetry. apply bytes_eqb_neq. intro H. rewrite H in E. rewrite (proj2 (str_cmp_eq _ _) eq_refl) in E. discriminate.
+Qed.
+(* the pointer comparison in matchingAllocation is only a short cut: the same object has the same name *)
+Lemma matching_spec ds tc a f : matching ds tc a f = negb tc || bytes_eqb (name_of ds a) (name_of ds f).
+Proof.
+  unfold matching. destruct (Nat.eqb_spec a f) as [->|_].
+  - rewrite bytes_eqb_refl. rewrite orb_true_r. reflexivity.
+  - destruct tc; cbn; [apply equal_type_spec|reflexivity].
+Qed.
+
+(* ------------------------------------------------------------------ what checkForCorruption reports *)
+Definition mismatch (ds : list adesc) (tc : bool) (n : node) (al : nat) : Prop :=
+  tc = true /\ fam_of ds (node_alloc n) <> fam_of ds al.
+
+Lemma mismatch_dec ds tc n al : mismatch ds tc n al \/ ~ mismatch ds tc n al.
+Proof.
+  unfold mismatch. destruct tc; [|right; intros [? _]; discriminate].
+  destruct (bytes_eqb (fam_of ds (node_alloc n)) (fam_of ds al)) eqn:E.
+  - apply bytes_eqb_eq in E. right. intros [_ H]. contradiction.
+  - apply bytes_eqb_neq in E. left. auto.
+Qed.
+
+Lemma check_exact ds st n al :
+  (check ds st n al = CMismatch <-> mismatch ds (s_tc st) n al) /\
+  (check ds st n al = CCorrupt <-> ~ mismatch ds (s_tc st) n al /\ guard_changed (s_mem st) n) /\
+  (check ds st n al = CNone <-> ~ mismatch ds (s_tc st) n al /\ ~ guard_changed (s_mem st) n) /\
+  check ds st n al <> CNonAlloc.
+Proof.
+  unfold check. rewrite matching_spec. fold (fam_of ds (node_alloc n)). fold (fam_of ds al).
+  destruct (mismatch_dec ds (s_tc st) n al) as [M|M].
+  - assert (E : negb (s_tc st) || bytes_eqb (fam_of ds (node_alloc n)) (fam_of ds al) = false).
+    { destruct M as [-> Hn]. cbn. apply bytes_eqb_neq. assumption. }
+    rewrite E. cbn. (split; [|split; [|split]]); try (split; intros X); try reflexivity; try discriminate; try tauto; try congruence.
+  - assert (E : negb (s_tc st) || bytes_eqb (fam_of ds (node_alloc n)) (fam_of ds al) = true).
+    { unfold mismatch in M. destruct (s_tc st); cbn; [|reflexivity].
+      destruct (bytes_eqb _ _) eqn:E; [reflexivity|]. apply bytes_eqb_neq in E. exfalso. apply M. auto. }
+    rewrite E. cbn. destruct (guard_changed_dec (s_mem st) n) as [C|C].
+    + rewrite (proj2 (valid_guard_false _ _) C). cbn. (split; [|split; [|split]]); try (split; intros X); try reflexivity; try discriminate; try tauto; try congruence.
+    + assert (V : valid_guard (s_mem st) (n_addr n + n_size n) = true).
+      { destruct (valid_guard _ _) eqn:V; [reflexivity|]. apply valid_guard_false in V. contradiction. }
+      rewrite V. cbn. (split; [|split; [|split]]); try (split; intros X); try reflexivity; try discriminate; try tauto; try congruence.
+Qed.
+
+(* ------------------------------------------------------------------ the table, through its flat view (C04) *)
+Lemma retrieve_flat a t : Inv t -> t_retrieve a t = l_retrieve a (flat t).
+Proof.
+  intros (L & B & ND). destruct (at_hash a t L B) as (T1 & b & T2 & E & L1 & N1 & N2 & Fb & Bok).
+  unfold t_retrieve. rewrite <- L1. rewrite E at 1. rewrite get_b_app.
+  rewrite E, flat_mid, retrieve_app, (retrieve_notin _ _ N1), retrieve_app.
+  destruct (l_retrieve a b); [reflexivity|]. rewrite (retrieve_notin _ _ N2). reflexivity.
+Qed.
+Lemma remove_cases a t : Inv t ->
+  (l_retrieve a (flat t) = None /\ ~ In a (addrs (flat t)) /\ fst (t_remove a t) = None) \/
+  (exists n, l_retrieve a (flat t) = Some n /\ n_addr n = a /\ In n (flat t) /\ fst (t_remove a t) = Some n /\
+             flat (snd (t_remove a t)) = rm a (flat t) /\ Inv (snd (t_remove a t)) /\ ~ In a (addrs (flat (snd (t_remove a t))))).
+Proof.
+  intros I. destruct (remove_flat a t I) as (F & R & I'). destruct (l_retrieve a (flat t)) as [n|] eqn:E.
+  - right. exists n. destruct (retrieve_some _ _ _ E) as (A & B & EA & Ha & Hn & Hr).
+    split; [reflexivity|]. split; [assumption|]. split; [rewrite EA; apply in_or_app; right; left; reflexivity|].
+    split; [assumption|]. split; [assumption|]. split; [assumption|].
+    rewrite R. destruct I as (_ & _ & ND). rewrite rm_drop by assumption.
+    unfold drop, addrs. rewrite in_map_iff. intros (x & Hx & Hin). apply filter_In in Hin. destruct Hin as [_ Hf].
+    unfold has_addr in Hf. rewrite Hx, N.eqb_refl in Hf. discriminate.
+  - left. split; [reflexivity|]. split; [apply retrieve_none; assumption|assumption].
+Qed.
+Lemma total_all t : t_total PAll t = N.of_nat (length (flat t)).
+Proof.
+  rewrite total_flat. f_equal. f_equal.
+  rewrite (filter_ext _ (fun _ => true)) by (intros c; reflexivity).
+  induction (flat t) as [|c r IH]; [reflexivity|]. cbn [filter]. rewrite IH. reflexivity.
+Qed.
+Lemma rm_length a : forall l n, l_retrieve a l = Some n -> S (length (rm a l)) = length l.
+Proof.
+  induction l as [|c r IH]; cbn; intros n H; [discriminate|].
+  destruct (n_addr c =? a); [reflexivity|]. cbn. f_equal. eapply IH. eassumption.
+Qed.
+
+(* ------------------------------------------------------------------ C06_category_exact *)
+Definition outstanding (st : dstate) (a : N) : Prop := In a (addrs (flat (s_tbl st))).
+Definition dealloc_cat ds jump st al p : cat := snd (fst (d_dealloc ds jump st al p)).
+Definition realloc_cat ds jump st al p na size : cat := snd (fst (d_realloc ds jump st al p na size)).
+
+(* the case analysis of the property, for a category c reported when address p is released through allocator al *)
+Definition category_is (ds : list adesc) (st : dstate) (al : nat) (p : option N) (c : cat) : Prop :=
+  match p with
+  | None => c = CNone
+  | Some a =>
+      (c = CNonAlloc <-> ~ outstanding st a) /\
+      (forall n, l_retrieve a (flat (s_tbl st)) = Some n ->
+         (c = CMismatch <-> mismatch ds (s_tc st) n al) /\
+         (c = CCorrupt <-> ~ mismatch ds (s_tc st) n al /\ guard_changed (s_mem st) n) /\
+         (c = CNone <-> ~ mismatch ds (s_tc st) n al /\ ~ guard_changed (s_mem st) n))
+  end.
+
+Lemma dealloc_category ds jump st al p : Inv (s_tbl st) -> category_is ds st al p (dealloc_cat ds jump st al p).
+Proof.
+  intros I. unfold category_is, dealloc_cat, d_dealloc. destruct p as [a|]; [|reflexivity].
+  destruct (remove_cases a (s_tbl st) I) as [(E & Hn & F)|(n & E & Ha & Hin & F & R & I' & Hout)].
+  - destruct (t_remove a (s_tbl st)) as [r t'] eqn:TR. cbn in F. subst r. cbn. split; [tauto|]. intros n H. congruence.
+  - destruct (t_remove a (s_tbl st)) as [r t'] eqn:TR. cbn in F. subst r.
+    set (st' := mkD t' (s_tc st) (s_mem st)).
+    destruct (check_exact ds st' n al) as (C1 & C2 & C3 & C4). cbn [s_tc s_mem st'] in *.
+    assert (O : outstanding st a). { unfold outstanding. rewrite <- Ha. apply in_map. assumption. }
+    assert (Q : snd (fst (match check ds st' n al with
+                          | CNone => (st', check ds st' n al, [(a, n_size n)])
+                          | _ => if jump then (st', check ds st' n al, []) else (st', check ds st' n al, [(a, n_size n)]) end))
+                = check ds st' n al) by (destruct (check ds st' n al), jump; reflexivity).
+    rewrite Q. split.
+    + split; [intro H; exfalso; apply C4; assumption | intro H; contradiction].
+    + intros n' H'. rewrite E in H'. inversion H'; subst n'. tauto.
+Qed.
+
+Lemma realloc_category ds jump st al p na size : Inv (s_tbl st) -> category_is ds st al p (realloc_cat ds jump st al p na size).
+Proof.
+  intros I. unfold category_is, realloc_cat, d_realloc. destruct p as [a|]; [|reflexivity].
+  destruct (remove_cases a (s_tbl st) I) as [(E & Hn & F)|(n & E & Ha & Hin & F & R & I' & Hout)].
+  - destruct (t_remove a (s_tbl st)) as [r t'] eqn:TR. cbn in F. subst r. cbn. split; [tauto|]. intros n H. congruence.
+  - destruct (t_remove a (s_tbl st)) as [r t'] eqn:TR. cbn in F. subst r.
+    set (st' := mkD t' (s_tc st) (s_mem st)).
+    destruct (check_exact ds st' n al) as (C1 & C2 & C3 & C4). cbn [s_tc s_mem st'] in *.
+    assert (O : outstanding st a). { unfold outstanding. rewrite <- Ha. apply in_map. assumption. }
+    assert (Q : snd (fst (match check ds st' n al with
+                          | CNone => (d_store st' na size al, check ds st' n al, true)
+                          | _ => if jump then (st', check ds st' n al, false) else (d_store st' na size al, check ds st' n al, true) end))
+                = check ds st' n al) by (destruct (check ds st' n al), jump; reflexivity).
+    rewrite Q. split.
+    + split; [intro H; exfalso; apply C4; assumption | intro H; contradiction].
+    + intros n' H'. rewrite E in H'. inversion H'; subst n'. tauto.
+Qed.
+
+(* the poison fill of operator delete / delete[] / free does not reach the guard *)
+Lemma invalidate_tbl st p : s_tbl (d_invalidate st p) = s_tbl st /\ s_tc (d_invalidate st p) = s_tc st.
+Proof. unfold d_invalidate. destruct p as [a|]; [|auto]. destruct (t_retrieve a (s_tbl st)); auto. Qed.
+Lemma invalidate_guard st a n : Inv (s_tbl st) -> l_retrieve a (flat (s_tbl st)) = Some n ->
+  forall i, mread (s_mem (d_invalidate st (Some a))) (n_addr n + n_size n + N.of_nat i) = mread (s_mem st) (n_addr n + n_size n + N.of_nat i).
+Proof.
+  intros I E i. unfold d_invalidate. rewrite (retrieve_flat _ _ I), E. cbn.
+  destruct (retrieve_some _ _ _ E) as (_ & _ & _ & Ha & _). subst a.
+  apply mread_outside. right. rewrite repeat_length, N2Nat.id. lia.
+Qed.
+
+(* total, mutually exclusive, and exactly as the property words it -- for all five release paths *)
+Definition C06_category_exact_stmt : Prop :=
+  forall ds jump st al p, Inv (s_tbl st) ->
+    category_is ds st al p (dealloc_cat ds jump st al p) /\                                  (* MemoryLeakAllocator::free_memory *)
+    category_is ds st al p (dealloc_cat ds jump (d_invalidate st p) al p) /\                 (* delete, delete[], free *)
+    (forall na size, category_is ds st al p (realloc_cat ds jump st al p na size)).          (* realloc *)
+Lemma category_exact : C06_category_exact_stmt.
+Proof.
+  intros ds jump st al p I. split; [apply dealloc_category; assumption|]. split; [|intros; apply realloc_category; assumption].
+  destruct (invalidate_tbl st p) as [Et Ec].
+  assert (I2 : Inv (s_tbl (d_invalidate st p))) by (rewrite Et; assumption).
+  pose proof (dealloc_category ds jump (d_invalidate st p) al p I2) as H.
+  unfold category_is in *. destruct p as [a|]; [|assumption].
+  unfold outstanding in *. rewrite Et, Ec in H. destruct H as [H1 H2]. split; [assumption|].
+  intros n E. specialize (H2 n E).
+  assert (GC : guard_changed (s_mem (d_invalidate st (Some a))) n <-> guard_changed (s_mem st) n).
+  { unfold guard_changed. split; intros (i & Hi & Hn); exists i; (split; [assumption|]).
+    - rewrite <- (invalidate_guard st a n I E i). assumption.
+    - rewrite (invalidate_guard st a n I E i). assumption. }
+  rewrite GC in H2. assumption.
+Qed.
+
+(* ------------------------------------------------------------------ the category as a function of the flat table *)
+Definition lookup_cat (ds : list adesc) (st : dstate) (al : nat) (p : option N) : cat :=
+  match p with
+  | None => CNone
+  | Some a => match l_retrieve a (flat (s_tbl st)) with None => CNonAlloc | Some n => check ds st n al end
+  end.
+Lemma check_indep ds t t' tc m n al : check ds (mkD t tc m) n al = check ds (mkD t' tc m) n al.
+Proof. reflexivity. Qed.
+Lemma dealloc_cat_eq ds jump st al p : Inv (s_tbl st) -> dealloc_cat ds jump st al p = lookup_cat ds st al p.
+Proof.
+  intros I. unfold dealloc_cat, d_dealloc, lookup_cat. destruct p as [a|]; [|reflexivity].
+  destruct (remove_cases a (s_tbl st) I) as [(E & Hn & F)|(n & E & Ha & Hin & F & R & I' & Hout)];
+    destruct (t_remove a (s_tbl st)) as [r t'] eqn:TR; cbn in F; subst r; rewrite E; [reflexivity|].
+  destruct st as [t tc m]. cbn [s_tbl s_tc s_mem] in *. rewrite (check_indep ds t' t).
+  destruct (check ds (mkD t tc m) n al), jump; reflexivity.
+Qed.
+Lemma realloc_cat_eq ds jump st al p na size : Inv (s_tbl st) -> realloc_cat ds jump st al p na size = lookup_cat ds st al p.
+Proof.
+  intros I. unfold realloc_cat, d_realloc, lookup_cat. destruct p as [a|]; [|reflexivity].
+  destruct (remove_cases a (s_tbl st) I) as [(E & Hn & F)|(n & E & Ha & Hin & F & R & I' & Hout)];
+    destruct (t_remove a (s_tbl st)) as [r t'] eqn:TR; cbn in F; subst r; rewrite E; [reflexivity|].
+  destruct st as [t tc m]. cbn [s_tbl s_tc s_mem] in *. rewrite (check_indep ds t' t).
+  destruct (check ds (mkD t tc m) n al), jump; reflexivity.
+Qed.
+
+(* two memories that show the same guard bytes for every tracked block *)
+Definition guards_agree (l : list node) (m1 m2 : memory) : Prop :=
+  forall k i, In k l -> (i < G)%nat -> mread m1 (n_addr k + n_size k + N.of_nat i) = mread m2 (n_addr k + n_size k + N.of_nat i).
+Lemma guards_agree_refl l m : guards_agree l m m.
+Proof. intros k i _ _. reflexivity. Qed.
+Lemma guards_agree_trans l m1 m2 m3 : guards_agree l m1 m2 -> guards_agree l m2 m3 -> guards_agree l m1 m3.
+Proof. intros H1 H2 k i Hk Hi. rewrite (H1 k i Hk Hi). apply H2; assumption. Qed.
+Lemma valid_guard_ext m1 m2 p : (forall i, (i < G)%nat -> mread m1 (p + N.of_nat i) = mread m2 (p + N.of_nat i)) ->
+  valid_guard m1 p = valid_guard m2 p.
+Proof. intros H. rewrite !valid_guard_range. f_equal. apply mrange_ext. assumption. Qed.
+Lemma lookup_cat_ext ds st1 st2 al p :
+  s_tbl st1 = s_tbl st2 -> s_tc st1 = s_tc st2 -> guards_agree (flat (s_tbl st1)) (s_mem st1) (s_mem st2) ->
+  lookup_cat ds st1 al p = lookup_cat ds st2 al p.
+Proof.
+  intros Et Ec Ag. unfold lookup_cat. destruct p as [a|]; [|reflexivity]. rewrite <- Et.
+  destruct (l_retrieve a (flat (s_tbl st1))) as [n|] eqn:E; [|reflexivity].
+  destruct (retrieve_some _ _ _ E) as (A & B & EA & _).
+  assert (Hin : In n (flat (s_tbl st1))) by (rewrite EA; apply in_or_app; right; left; reflexivity).
+  unfold check. rewrite Ec. rewrite (valid_guard_ext (s_mem st1) (s_mem st2)); [reflexivity|].
+  intros i Hi. apply Ag; assumption.
+Qed.
+
+(* ------------------------------------------------------------------ slots: the regions of tracked blocks are disjoint *)
+Definition slot_ok (n : node) : Prop := n_addr n mod slot_size = 0 /\ n_size n <= max_size.
+Definition slots_ok (l : list node) : Prop := Forall slot_ok l.
+Lemma G_fits : max_size + N.of_nat G + 1 <= slot_size.
+Proof. vm_compute. intro H. discriminate H. Qed.
+Lemma slot_sep a1 a2 : a1 mod slot_size = 0 -> a2 mod slot_size = 0 -> a1 <> a2 -> a1 + slot_size <= a2 \/ a2 + slot_size <= a1.
+Proof.
+  unfold slot_size. intros H1 H2 Hn.
+  pose proof (N.div_mod a1 4608 ltac:(discriminate)) as D1. pose proof (N.div_mod a2 4608 ltac:(discriminate)) as D2.
+  rewrite H1 in D1. rewrite H2 in D2. destruct (N.lt_trichotomy (a1 / 4608) (a2 / 4608)) as [L|[L|L]]; lia.
+Qed.
+Lemma nodup_addr_inj : forall l k n, NoDup (addrs l) -> In k l -> In n l -> n_addr k = n_addr n -> k = n.
+Proof.
+  induction l as [|c r IH]; cbn; intros k n ND Hk Hn E; [tauto|]. inversion ND as [|x y Hx Hy]; subst.
+  destruct Hk as [<-|Hk], Hn as [<-|Hn]; auto.
+  - exfalso. apply Hx. rewrite E. apply in_map. assumption.
+  - exfalso. apply Hx. rewrite <- E. apply in_map. assumption.
+Qed.
+Lemma retrieve_in : forall l n, NoDup (addrs l) -> In n l -> l_retrieve (n_addr n) l = Some n.
+Proof.
+  induction l as [|c r IH]; cbn; intros n ND Hn; [tauto|]. inversion ND as [|x y Hx Hy]; subst.
+  destruct Hn as [<-|Hn]; [rewrite N.eqb_refl; reflexivity|].
+  destruct (N.eqb_spec (n_addr c) (n_addr n)) as [E|_]; [|apply IH; assumption].
+  exfalso. apply Hx. rewrite E. apply in_map. assumption.
+Qed.
+
+(* a write of the user program that stays inside the user bytes of an outstanding block *)
+Definition user_write (l : list node) (w : N) (bs : list N) : Prop :=
+  exists n, In n l /\ n_addr n <= w /\ w + N.of_nat (length bs) <= n_addr n + n_size n.
+Lemma user_write_agree l m w bs : slots_ok l -> NoDup (addrs l) -> user_write l w bs -> guards_agree l (mwrite m w bs) m.
+Proof.
+  intros SO ND (n & Hn & Hlo & Hhi) k i Hk Hi. apply mread_outside.
+  unfold slots_ok in SO. rewrite Forall_forall in SO. destruct (SO k Hk) as [Mk Sk]. destruct (SO n Hn) as [Mn Sn].
+  pose proof G_fits as GF.
+  destruct (N.eq_dec (n_addr k) (n_addr n)) as [E|E].
+  - assert (k = n) by (eapply nodup_addr_inj; eassumption). subst k. right. lia.
+  - destruct (slot_sep _ _ Mk Mn E) as [S|S]; [left|right]; lia.
+Qed.
+Definition apply_writes (m : memory) (ws : list (N * list N)) : memory := fold_left (fun m w => mwrite m (fst w) (snd w)) ws m.
+Lemma user_writes_agree l : slots_ok l -> NoDup (addrs l) -> forall ws m,
+  Forall (fun w => user_write l (fst w) (snd w)) ws -> guards_agree l (apply_writes m ws) m.
+Proof.
+  intros SO ND. induction ws as [|w r IH]; intros m H; cbn; [apply guards_agree_refl|].
+  inversion H; subst. eapply guards_agree_trans; [apply IH; assumption|]. apply user_write_agree; assumption.
+Qed.
+(* the poison fill is such a write *)
+Lemma invalidate_agree st p : Inv (s_tbl st) -> slots_ok (flat (s_tbl st)) ->
+  guards_agree (flat (s_tbl st)) (s_mem (d_invalidate st p)) (s_mem st).
+Proof.
+  intros I SO. unfold d_invalidate. destruct p as [a|]; [|apply guards_agree_refl].
+  rewrite (retrieve_flat _ _ I). destruct (l_retrieve a (flat (s_tbl st))) as [n|] eqn:E; [|apply guards_agree_refl].
+  cbn. destruct (retrieve_some _ _ _ E) as (A & B & EA & Ha & _). destruct I as (_ & _ & ND).
+  apply user_write_agree; try assumption. exists n. split; [rewrite EA; apply in_or_app; right; left; reflexivity|].
+  rewrite repeat_length, N2Nat.id. lia.
+Qed.
+
+(* ------------------------------------------------------------------ C06_user_writes_silent *)
+Definition with_mem (st : dstate) (m : memory) : dstate := mkD (s_tbl st) (s_tc st) m.
+Definition C06_user_writes_silent_stmt : Prop :=
+  forall ds jump st ws al p, Inv (s_tbl st) -> slots_ok (flat (s_tbl st)) ->
+    Forall (fun w => user_write (flat (s_tbl st)) (fst w) (snd w)) ws ->
+    let st' := with_mem st (apply_writes (s_mem st) ws) in
+    dealloc_cat ds jump st' al p = dealloc_cat ds jump st al p /\
+    dealloc_cat ds jump (d_invalidate st' p) al p = dealloc_cat ds jump (d_invalidate st p) al p /\
+    (forall na size, realloc_cat ds jump st' al p na size = realloc_cat ds jump st al p na size).
+Lemma user_writes_silent : C06_user_writes_silent_stmt.
+Proof.
+  intros ds jump st ws al p I SO Hw st'. pose proof I as (_ & _ & ND).
+  assert (Ag : guards_agree (flat (s_tbl st)) (s_mem st') (s_mem st)) by (apply user_writes_agree; assumption).
+  assert (I' : Inv (s_tbl st')) by assumption.
+  split; [|split].
+  - rewrite !dealloc_cat_eq by assumption. apply lookup_cat_ext; auto.
+  - destruct (invalidate_tbl st p) as [Et Ec]. destruct (invalidate_tbl st' p) as [Et' Ec'].
+    rewrite !dealloc_cat_eq by (rewrite ?Et, ?Et'; assumption).
+    apply lookup_cat_ext; [rewrite Et, Et'; reflexivity | rewrite Ec, Ec'; reflexivity |].
+    rewrite Et'. cbn [s_tbl st' with_mem].
+    eapply guards_agree_trans; [apply (invalidate_agree st' p); assumption|].
+    eapply guards_agree_trans; [exact Ag|]. intros k i Hk Hi. symmetry. apply (invalidate_agree st p I SO k i Hk Hi).
+  - intros na size. rewrite !realloc_cat_eq by assumption. apply lookup_cat_ext; auto.
+Qed.
+
+(* ------------------------------------------------------------------ C06_every_guard_byte *)
+Definition all_paths (ds : list adesc) (jump : bool) (st : dstate) (al : nat) (p : option N) (c : cat) : Prop :=
+  dealloc_cat ds jump st al p = c /\ dealloc_cat ds jump (d_invalidate st p) al p = c /\
+  (forall na size, realloc_cat ds jump st al p na size = c).
+Lemma all_paths_lookup ds jump st al p : Inv (s_tbl st) -> slots_ok (flat (s_tbl st)) -> all_paths ds jump st al p (lookup_cat ds st al p).
+Proof.
+  intros I SO. split; [apply dealloc_cat_eq; assumption|]. split; [|intros; apply realloc_cat_eq; assumption].
+  destruct (invalidate_tbl st p) as [Et Ec]. rewrite dealloc_cat_eq by (rewrite Et; assumption).
+  apply lookup_cat_ext; auto. rewrite Et. apply invalidate_agree; assumption.
+Qed.
+
+Definition C06_every_guard_byte_stmt : Prop :=
+  forall ds jump st n al i v, Inv (s_tbl st) -> slots_ok (flat (s_tbl st)) -> In n (flat (s_tbl st)) ->
+    (i < G)%nat -> v <> pat i ->
+    let st' := with_mem st (mwrite (s_mem st) (n_addr n + n_size n + N.of_nat i) [v]) in
+    (~ mismatch ds (s_tc st) n al -> all_paths ds jump st' al (Some (n_addr n)) CCorrupt) /\
+    (mismatch ds (s_tc st) n al -> all_paths ds jump st' al (Some (n_addr n)) CMismatch).
+Lemma every_guard_byte : C06_every_guard_byte_stmt.
+Proof.
+  intros ds jump st n al i v I SO Hin Hi Hv st'. pose proof I as (_ & _ & ND).
+  assert (L : lookup_cat ds st' al (Some (n_addr n)) = check ds st' n al).
+  { unfold lookup_cat. cbn [s_tbl st' with_mem]. rewrite (retrieve_in _ _ ND Hin). reflexivity. }
+  assert (GC : guard_changed (s_mem st') n).
+  { exists i. split; [assumption|]. cbn [s_mem st' with_mem].
+    rewrite mread_mwrite.
+    assert (S : in_seg (n_addr n + n_size n + N.of_nat i) [v] (n_addr n + n_size n + N.of_nat i) = true) by (apply in_seg_true; cbn; lia).
+    rewrite S, N.sub_diag. cbn. assumption. }
+  destruct (check_exact ds st' n al) as (C1 & C2 & C3 & C4). cbn [s_tc st' with_mem] in *.
+  pose proof (all_paths_lookup ds jump st' al (Some (n_addr n)) I SO) as AP. rewrite L in AP.
+  split; intros M.
+  - rewrite (proj2 C2 (conj M GC)) in AP. assumption.
+  - rewrite (proj2 C1 M) in AP. assumption.
+Qed.
+
+(* ------------------------------------------------------------------ C06_null_silent *)
 Definition C06_null_silent_stmt : Prop :=
   forall ds jump st al,
     d_dealloc ds jump (d_invalidate st None) al None = (st, CNone, []) /\
+    d_realloc ds jump st al None = (fun na size => (d_store st na size al, CNone, true)) /\
     (forall e, exists x, step ds jump st (OpFree e al None) = (st, Some x) /\ o_calls x = 0 /\ o_cat x = 0 /\ o_freed x = []).
 Lemma null_silent : C06_null_silent_stmt.
 Proof.
-  intros ds jump st al. split; [reflexivity|].
+  intros ds jump st al. split; [reflexivity|]. split; [reflexivity|].
   intros e. destruct e; cbn; eexists; (split; [reflexivity|]); cbn; auto.
 Qed.
-Example null_silent_ex : snd (step [APlain [1]] false d_init (OpFree ENew 0%nat None)) = Some (mkO 0 0 [] 0 false).
-Proof. reflexivity. Qed.
+
+(* ------------------------------------------------------------------ storing a block *)
+Lemma retrieve_insert a' : forall A n B, ~ In (n_addr n) (addrs (A ++ B)) ->
+  l_retrieve a' (A ++ n :: B) = if n_addr n =? a' then Some n else l_retrieve a' (A ++ B).
+Proof.
+  intros A n B Hn. rewrite !retrieve_app. cbn. apply notin_app in Hn. destruct Hn as [HA HB].
+  destruct (N.eqb_spec (n_addr n) a') as [E|E].
+  - subst a'. rewrite (retrieve_notin _ _ HA). reflexivity.
+  - reflexivity.
+Qed.
+Lemma store_facts st a size al : Inv (s_tbl st) -> ~ outstanding st a ->
+  let st1 := d_store st a size al in
+  Inv (s_tbl st1) /\
+  (forall a', l_retrieve a' (flat (s_tbl st1)) = if a =? a' then Some (mk_node a size al) else l_retrieve a' (flat (s_tbl st))) /\
+  (forall x, In x (flat (s_tbl st1)) <-> x = mk_node a size al \/ In x (flat (s_tbl st))) /\
+  length (flat (s_tbl st1)) = S (length (flat (s_tbl st))) /\
+  s_tc st1 = s_tc st /\ s_mem st1 = mwrite (s_mem st) (a + size) pattern.
+Proof.
+  intros I Hn st1. unfold outstanding in Hn.
+  destruct (add_flat (mk_node a size al) (s_tbl st) I Hn) as (I1 & A & B & EF & EF1).
+  cbn [st1 d_store s_tbl s_tc s_mem]. split; [assumption|]. split; [|split; [|split; [|split; reflexivity]]].
+  - intros a'. rewrite EF1, EF. apply retrieve_insert. cbn. rewrite <- EF. assumption.
+  - intros x. rewrite EF1, EF, !in_app_iff. cbn. intuition.
+  - rewrite EF1, EF, !app_length. cbn. lia.
+Qed.
+
+(* ------------------------------------------------------------------ C06_paired_silent *)
+Definition C06_paired_silent_stmt : Prop :=
+  forall ds jump st a size al al2 ws, Inv (s_tbl st) -> slots_ok (flat (s_tbl st)) ->
+    ~ outstanding st a -> a mod slot_size = 0 -> size <= max_size ->
+    Forall (fun w => a <= fst w /\ fst w + N.of_nat (length (snd w)) <= a + size) ws ->
+    fam_of ds al2 = fam_of ds al ->
+    let st1 := d_store st a size al in
+    let st2 := with_mem st1 (apply_writes (s_mem st1) ws) in
+    all_paths ds jump st2 al2 (Some a) CNone.
+Lemma paired_silent : C06_paired_silent_stmt.
+Proof.
+  intros ds jump st a size al al2 ws I SO Hn Ha Hs Hw Hf st1 st2.
+  destruct (store_facts st a size al I Hn) as (I1 & R1 & In1 & _ & Tc1 & M1). fold st1 in I1, R1, In1, Tc1, M1.
+  assert (SO1 : slots_ok (flat (s_tbl st1))).
+  { unfold slots_ok. rewrite Forall_forall. intros x Hx. apply In1 in Hx. destruct Hx as [->|Hx].
+    - split; assumption.
+    - unfold slots_ok in SO. rewrite Forall_forall in SO. apply SO. assumption. }
+  pose proof I1 as (_ & _ & ND1).
+  assert (Hin : In (mk_node a size al) (flat (s_tbl st1))) by (apply In1; left; reflexivity).
+  assert (UW : Forall (fun w => user_write (flat (s_tbl st1)) (fst w) (snd w)) ws).
+  { rewrite Forall_forall in *. intros w Hwi. exists (mk_node a size al). split; [assumption|]. cbn. apply Hw. assumption. }
+  assert (Ag : guards_agree (flat (s_tbl st1)) (s_mem st2) (s_mem st1)) by (apply user_writes_agree; assumption).
+  pose proof (all_paths_lookup ds jump st2 al2 (Some a) I1 SO1) as AP.
+  assert (L : lookup_cat ds st2 al2 (Some a) = CNone).
+  { unfold lookup_cat. cbn [s_tbl st2 with_mem]. rewrite R1, N.eqb_refl.
+    destruct (check_exact ds st2 (mk_node a size al) al2) as (_ & _ & C3 & _). apply C3. split.
+    - intros [_ Hd]. apply Hd. unfold node_alloc. cbn. rewrite Nat2N.id. symmetry. assumption.
+    - intros (i & Hi & Hc). apply Hc. rewrite (Ag _ i Hin Hi). rewrite M1. cbn [n_addr n_size mk_node].
+      rewrite mread_inside by (rewrite pattern_length; assumption). apply pattern_nth. assumption. }
+  rewrite L in AP. assumption.
+Qed.
+
+(* ------------------------------------------------------------------ C06_poison_before_free *)
+(* operator delete / delete[] / free of an outstanding block: whenever the block reaches the allocator's free_memory, the
+   allocator sees `size` copies of the poison byte at its address -- also when a mismatch or a corruption was reported *)
+Definition C06_poison_before_free_stmt : Prop :=
+  forall ds jump st e al a n x st', Inv (s_tbl st) -> e <> EString ->
+    l_retrieve a (flat (s_tbl st)) = Some n ->
+    step ds jump st (OpFree e al (Some a)) = (st', Some x) ->
+    (o_freed x = [] \/ o_freed x = [(a, Some (repeat poison (N.to_nat (n_size n))))]) /\
+    (o_cat x = 0 \/ jump = false -> o_freed x = [(a, Some (repeat poison (N.to_nat (n_size n))))]).
+Lemma poison_before_free : C06_poison_before_free_stmt.
+Proof.
+  intros ds jump st e al a n x st' I He E Hs.
+  assert (S1 : step ds jump st (OpFree e al (Some a)) =
+               let '(st2, c, fr) := d_dealloc ds jump (d_invalidate st (Some a)) (det_alloc ds e al) (Some a) in
+               (st2, Some (mkO (calls_of c) (cat_code c) (seen st2 false fr) (total_of st2) false))).
+  { destruct e; try reflexivity. contradiction. }
+  rewrite S1 in Hs. clear S1.
+  assert (Ei : d_invalidate st (Some a) = mkD (s_tbl st) (s_tc st) (mwrite (s_mem st) a (repeat poison (N.to_nat (n_size n))))).
+  { unfold d_invalidate. rewrite (retrieve_flat _ _ I), E. reflexivity. }
+  rewrite Ei in Hs. unfold d_dealloc in Hs. cbn [s_tbl s_tc s_mem] in Hs.
+  destruct (remove_cases a (s_tbl st) I) as [(E0 & _)|(n' & E' & Ha & Hin & F & R & I' & Hout)]; [congruence|].
+  rewrite E in E'. inversion E'; subst n'. clear E'.
+  destruct (t_remove a (s_tbl st)) as [r t'] eqn:TR. cbn in F. subst r.
+  set (m' := mwrite (s_mem st) a (repeat poison (N.to_nat (n_size n)))) in *.
+  assert (MR : mrange m' a (N.to_nat (n_size n)) = repeat poison (N.to_nat (n_size n))).
+  { unfold m'. pose proof (mrange_written (s_mem st) a (repeat poison (N.to_nat (n_size n)))) as H. rewrite repeat_length in H. exact H. }
+  destruct (check_exact ds (mkD t' (s_tc st) m') n (det_alloc ds e al)) as (_ & _ & _ & C4).
+  destruct (check ds (mkD t' (s_tc st) m') n (det_alloc ds e al)) eqn:C; [|exfalso; apply C4; reflexivity|destruct jump|destruct jump];
+    cbn in Hs; inversion Hs; cbn [o_freed o_cat]; fold m'; rewrite ?MR;
+    (split; [first [right; reflexivity | left; reflexivity] | intros [H|H]; first [reflexivity | discriminate H]]).
+Qed.
+
+(* ------------------------------------------------------------------ C06_block_removed_after_report *)
+(* whatever was reported about the release of an outstanding block, its record is gone afterwards: the count drops by one,
+   every other record stays, and releasing the same address again is 'non-allocated' *)
+Definition C06_block_removed_after_report_stmt : Prop :=
+  forall ds jump st al a, Inv (s_tbl st) -> outstanding st a ->
+    forall st' c fr, d_dealloc ds jump st al (Some a) = (st', c, fr) ->
+      Inv (s_tbl st') /\ ~ outstanding st' a /\
+      total_of st = total_of st' + 1 /\
+      (forall a', a' <> a -> l_retrieve a' (flat (s_tbl st')) = l_retrieve a' (flat (s_tbl st))) /\
+      (forall al2 jump2, dealloc_cat ds jump2 st' al2 (Some a) = CNonAlloc /\
+                         dealloc_cat ds jump2 (d_invalidate st' (Some a)) al2 (Some a) = CNonAlloc /\
+                         forall na size, realloc_cat ds jump2 st' al2 (Some a) na size = CNonAlloc).
+Lemma retrieve_rm_other a a' : forall l, a' <> a -> l_retrieve a' (rm a l) = l_retrieve a' l.
+Proof.
+  induction l as [|c r IH]; cbn; intros H; [reflexivity|].
+  destruct (N.eqb_spec (n_addr c) a) as [E|E].
+  - destruct (N.eqb_spec (n_addr c) a'); [congruence|reflexivity].
+  - cbn. rewrite IH by assumption. reflexivity.
+Qed.
+Lemma block_removed_after_report : C06_block_removed_after_report_stmt.
+Proof.
+  intros ds jump st al a I O st' c fr Hd. unfold d_dealloc in Hd.
+  destruct (remove_cases a (s_tbl st) I) as [(E0 & Hn & _)|(n & E & Ha & Hin & F & R & I' & Hout)]; [contradiction|].
+  destruct (t_remove a (s_tbl st)) as [r t'] eqn:TR. cbn [fst snd] in F, R, I', Hout. subst r.
+  assert (Et : s_tbl st' = t').
+  { destruct (check ds (mkD t' (s_tc st) (s_mem st)) n al), jump; inversion Hd; reflexivity. }
+  rewrite Et. split; [assumption|]. split; [unfold outstanding; rewrite Et; assumption|].
+  split; [|split].
+  - unfold total_of. rewrite Et, !total_all, R. rewrite <- (rm_length a _ n E). lia.
+  - intros a' Hne. rewrite R. apply retrieve_rm_other. assumption.
+  - intros al2 jump2.
+    assert (I2 : Inv (s_tbl st')) by (rewrite Et; assumption).
+    assert (L : forall st2, s_tbl st2 = t' -> lookup_cat ds st2 al2 (Some a) = CNonAlloc).
+    { intros st2 E2. unfold lookup_cat. rewrite E2, (retrieve_notin _ _ Hout). reflexivity. }
+    split; [|split].
+    + rewrite dealloc_cat_eq by assumption. apply L. assumption.
+    + destruct (invalidate_tbl st' (Some a)) as [Ei _]. rewrite dealloc_cat_eq by (rewrite Ei; assumption). apply L. rewrite Ei. assumption.
+    + intros na size. rewrite realloc_cat_eq by assumption. apply L. assumption.
+Qed.
